@@ -62,12 +62,12 @@ def classify(block, roots):
     return "state", "race:" + "|".join(fns)
 
 
-def post_c36(res, info):
-    roots = (os.path.abspath(os.environ.get("VERIF_REPO", "/repo")) + "/src", os.path.abspath(os.environ.get("VERIF_REPO", "/repo")) + "/include", "/repo/src", "/repo/include")
+def collect(paths, roots):
+    """-> (number of reports, {signature: [blocks]}, number of descriptor/life-cycle reports)"""
     reports = 0
     families = {}
     descriptor = 0
-    for path in sorted(glob.glob(os.path.join(info["rundir"], "san.%s.*" % info["part"]["name"]))):
+    for path in paths:
         text = open(path, errors="replace").read()
         for block in re.split(r"={18}\n", text):
             if "WARNING: ThreadSanitizer: data race" not in block:
@@ -87,6 +87,16 @@ def post_c36(res, info):
                 descriptor += 1
                 continue
             families.setdefault(key, []).append(block)
+    return reports, families, descriptor
+
+
+def repo_roots():
+    r = os.path.abspath(os.environ.get("VERIF_REPO", "/repo"))
+    return (r + "/src", r + "/include", "/repo/src", "/repo/include")
+
+
+def post_c36(res, info):
+    reports, families, descriptor = collect(sorted(glob.glob(os.path.join(info["rundir"], "san.%s.*" % info["part"]["name"]))), repo_roots())
     for key, blocks in sorted(families.items()):
         res.violations.append({"key": key, "detail": {"reports": len(blocks), "first_report": blocks[0][:30000]}, "case": None,
                                "seed": info["seed"], "part": info["part"]["name"], "exe": info["part"]["exe"]})
